@@ -237,7 +237,10 @@ class ConcCtx:
         else:
             t = (tol or 0) + (rel or 0) * abs(b)
             t = t * (1 + 1e-9) + 1e-300
-        ok = (abs(a - b) <= t) and not (math.isnan(a) or math.isnan(b))
+        if math.isinf(a) or math.isinf(b):
+            ok = (a == b)           # an overflowed value equals only the same infinity (inf <= inf*rel would accept anything)
+        else:
+            ok = (abs(a - b) <= t) and not (math.isnan(a) or math.isnan(b))
         self.results.append((label, bool(ok), a, b))
 
     def true(self, label, cond, info=None):
